@@ -245,7 +245,7 @@ func stackHasLibFrame(st string) bool {
 	return strings.Contains(st, "github.com/gmrtd/gmrtd/")
 }
 
-var frameRe = regexp.MustCompile(`github\.com/gmrtd/gmrtd/([A-Za-z0-9_/]+)\.([A-Za-z0-9_\.\(\)\*]+)`)
+var frameRe = regexp.MustCompile(`github\.com/gmrtd/gmrtd/([A-Za-z0-9_/]+)\.((?:\(\*?[A-Za-z0-9_]+\)\.)?[A-Za-z0-9_]+)`)
 
 func topLibFrame(st string) string {
 	m := frameRe.FindStringSubmatch(st)
